@@ -426,7 +426,6 @@ func runTPCAcceptor(c *core.Ctx) {
 	}
 }
 
-
 // scanPrecedes: every path from the function entry to atom a runs through the range statement rs.
 func scanPrecedes(g *an.Graph, rs *ast.RangeStmt, a ast.Node) bool {
 	q := g.Search(an.Query{Target: func(y ast.Node) bool { return y == a }, Avoid: func(y ast.Node) bool {
